@@ -774,6 +774,90 @@ def run_cases(cases, out, label, chunk=20000):
     return items
 
 
+# ---------------------------------------------------------------------------------------------------
+# store leg: "the call is not repeated after success" one layer up — the REAL EsMetricsStore (open / put / flush / close) over the
+# real EsClient.guarded over a scripted cluster; every attempt either indexes the whole request or nothing (whole-call outcomes:
+# ok, transient before processing, fatal; the refresh after the bulk: ok or fatal), so a document that reaches the index twice was
+# handed to bulk_index again after a bulk_index call that had RETURNED. Executed and validated with the machinery of the extra
+# module EsStore (specs/EsStore, harness/extras/esstore.py); only its clause AtMostOnce is a C17 verdict here.
+# ---------------------------------------------------------------------------------------------------
+def store_cases(seed, n):
+    from ..extras import esstore as xs
+
+    rnd = random.Random(seed)
+    ok = {"k": "ok", "bad": [], "v": 0}
+    val = dict(xs.NO_ARGS, kind="value", lvl="cluster", tm="auto", sty="normal", task="t1", op="o1", opt="bulk")
+    cases = []
+    for ci in range(n):
+        ops = [{"op": "Open", "s": "rc", "how": "direct", "c": xs.CTXS[0], "create": True, "w": dict(xs.NO_WORLD)}]
+        nbuf = 0
+        is_open = True
+        for _ in range(rnd.randint(3, 9)):
+            r = rnd.random()
+            if not is_open:
+                break
+            if r < 0.45 or nbuf == 0:
+                k = rnd.randint(1, 3)
+                ops += [{"op": "Put", "s": "rc", "a": val} for _ in range(k)]
+                nbuf += k
+                continue
+            style = rnd.random()
+            if style < 0.5:
+                script = [ok]
+            elif style < 0.7:
+                script = [{"k": "reqT", "bad": [], "v": rnd.randrange(4)} for _ in range(rnd.randint(1, 3))] + [ok]
+            elif style < 0.85:
+                script = [{"k": "reqF", "bad": [], "v": rnd.randrange(4)}]
+            else:
+                script = [{"k": "reqT", "bad": [], "v": i % 4} for i in range(xs.REAL_RETRIES + 1)]
+            rscript = "fatal" if rnd.random() < 0.35 else "ok"
+            if r < 0.9:
+                ops.append({"op": "Flush", "s": "rc", "refresh": rnd.random() < 0.7 or ci % 3 == 0, "script": script, "rscript": rscript})
+            else:
+                ops.append({"op": "Close", "s": "rc", "script": script, "rscript": rscript})
+                is_open = False
+            if script[-1]["k"] == "ok":
+                nbuf = 0
+        if is_open:
+            ops.append({"op": "Close", "s": "rc", "script": [ok] if nbuf else [], "rscript": "ok"})
+        cases.append({"src": "c17-store", "types": "eses", "group": 1, "ops": ops})
+    # the shortest history of the kind: bulk succeeds, the refresh of the same flush fails, the caller flushes again
+    cases.append({"src": "c17-store:refresh-fails", "types": "eses", "group": 1, "ops": [ops0 for ops0 in [
+        {"op": "Open", "s": "rc", "how": "direct", "c": xs.CTXS[0], "create": True, "w": dict(xs.NO_WORLD)},
+        {"op": "Put", "s": "rc", "a": val},
+        {"op": "Flush", "s": "rc", "refresh": True, "script": [ok], "rscript": "fatal"},
+        {"op": "Close", "s": "rc", "script": [], "rscript": "ok"},
+    ]]})
+    return cases
+
+
+def store_leg(ctx, out, cases=None):
+    from ..core import Outcome
+    from ..extras import esstore as xs
+
+    cases = cases if cases is not None else store_cases(ctx.seed + 1717, 60 if ctx.quick else 600)
+    sub = Outcome("C17-store")
+    xs.run_cases(cases, sub, "c17store")
+    out.states += sub.states
+    out.transitions += sub.transitions
+    out.traces_validated += sub.traces_validated
+    bad = 0
+    for v in sub.violations:
+        if v.clause != "AtMostOnce":
+            continue  # other clauses of the extra module are not C17's
+        bad += 1
+        case = dict(v.case, store_leg=True, op="store", script=[], kind="store")
+        out.violations.append(Violation("NotRepeatedAfterSuccess", case, signature={"clauses": ["NotRepeatedAfterSuccess"], "leg": "store", "cause": v.signature.get("cause")}, detail="store leg: " + v.detail))
+    for d in sub.drift:
+        out.drift.append("store leg: " + d)
+    for c in cases:
+        out.add_case(("store", c["ops"]), nontrivial=True)
+    out.extra["store_leg"] = {"histories": len(cases), "flushes_with_failing_refresh_after_a_successful_bulk": sum(1 for c in cases for o in c["ops"] if o["op"] in ("Flush", "Close") and o.get("script") and o["script"][-1]["k"] == "ok" and o.get("rscript") == "fatal" and o.get("refresh", True)), "violating": bad}
+    out.note("store leg: %d histories on the real EsMetricsStore (put / flush / close over guarded calls with whole-call outcomes), %d violating" % (len(cases), bad))
+    return bad
+
+
+
 def _quiet():
     lg = logging.getLogger("esrally.metrics")
     lg.addHandler(logging.NullHandler())
@@ -875,12 +959,21 @@ def run(ctx, out):
     )
     if missing:
         out.vacuous.append("situations never exercised on the implementation: %s" % missing[:5])
+    store_leg(ctx, out)
     # report the smallest failing case of every kind first
     out.violations.sort(key=lambda v: (len(v.case["script"]), len(repr(v.case)), repr(v.case)))
 
 
 def replay(ctx, case):
     _quiet()
+    if case.get("store_leg"):
+        from ..core import Outcome
+
+        sub = Outcome("C17-store-replay")
+        n = store_leg(ctx, sub, cases=[{k: v for k, v in case.items() if k in ("src", "types", "group", "ops")}])
+        for v in sub.violations:
+            print("VIOLATION property=C17 clause=%s %s" % (v.clause, v.detail))
+        return 1 if n else 0
     res = execute(case)
     if res is None:
         print("op=%s: HEAD answered 404 is an answer, not a fault" % case["op"])
